@@ -48,7 +48,7 @@ REQUIRED_TAGS = ['form=check', 'form=sections', 'form=to_index', 'form=from_inde
                  'form=edge_surfaces2', 'form=edge_surfaces6', 'form=extrude', 'form=thicken', 'sel=keyword',
                  'sel=mixed', 'unwrap=false', 'pardim=1', 'pardim=2', 'pardim=3', 'rational', 'periodic-dir',
                  'loop=asgiven', 'loop=reordered', 'loop=reversed-member', 'loop=open', 'cpc=knot', 'cpc=between',
-                 'cpc=outside', 'oracle-only', 'raises', 'corners=F', 'faces=None',
+                 'cpc=outside', 'different-bases', 'raises', 'corners=F', 'faces=None',
                  'same-distinct-knots-different-mult', 'same-distinct-knots-different-mult/2',
                  'same-distinct-knots-different-mult/4']
 KNOWN_LABELS = ['edge-curves-homogeneous-endpoint-test', 'coons-rational-unequal-corner-weights',
@@ -100,6 +100,8 @@ def _enc_res(r):
     """Observable of a `section` result."""
     if r is None:
         return 'none'
+    if isinstance(r, np.generic):
+        return ['ndarray', [1], [float(r)]]
     if isinstance(r, np.ndarray):
         return ['ndarray', list(r.shape), np.asarray(r, dtype=float).reshape(-1).tolist()]
     return [type(r).__name__, gen.obj_observables(r)]
@@ -372,6 +374,11 @@ def generate(rng, tier):
                           'kw': {}, 'unwrap': True, 'sel': None})
             if pardim < 3 and rng.random() < 0.5:
                 specs.append({'form': 'section', 'obj': o, 'args': [], 'kw': {'uvw'[pardim]: 0}, 'unwrap': True, 'sel': None})
+            # more positional selectors than parametric directions: the component axis is indexed too / IndexError
+            specs.append({'form': 'section', 'obj': o, 'args': [rng.choice([None, 0, -1]) for _ in range(pardim)] + [rng.choice([0, 1, None, 7])],
+                          'kw': {}, 'unwrap': rng.random() < 0.7, 'sel': None})
+            if rng.random() < 0.3:
+                specs.append({'form': 'section', 'obj': o, 'args': [0] * (pardim + 2), 'kw': {}, 'unwrap': True, 'sel': None})
             specs.append({'form': 'corners', 'obj': o, 'order': 'C'})
             specs.append({'form': 'corners', 'obj': o, 'order': 'F'})
             if pardim >= 2:
@@ -577,11 +584,11 @@ def model_line(s):
         d = s['direction']
         return line('sec_cpc', gen.enc_object(s['obj']), gen.TOL, s['knot'], Word(d) if isinstance(d, str) else d)
     if f == 'edge_curves':
-        return line('sec_edge_curves', [gen.enc_object(c) for c in s['curves']], CP_RTOL, CP_ATOL)
+        return line('sec_edge_curves', [gen.enc_object(c) for c in s['curves']], gen.TOL, CP_RTOL, CP_ATOL)
     if f == 'coons':
-        return line('sec_coons', [gen.enc_object(c) for c in s['curves']])
+        return line('sec_coons', [gen.enc_object(c) for c in s['curves']], gen.TOL)
     if f == 'edge_surfaces':
-        return line('sec_edge_surfaces', [gen.enc_object(c) for c in _surfs(None, s, spec_only=True)])
+        return line('sec_edge_surfaces', [gen.enc_object(c) for c in _surfs(None, s, spec_only=True)], gen.TOL)
     if f == 'extrude':
         return line('sec_extrude', gen.enc_object(s['obj']), s['amount'])
     if f == 'thicken':
@@ -667,8 +674,8 @@ def run_impl(sp, s):
 
 def compare(s, iv, mv):
     f = s['form']
-    if s.get('oracle_only') or f == 'thicken':
-        return None      # inputs outside the model's scope (differing bases / sqrt): oracle only
+    if f == 'thicken' or s.get('modify'):
+        return None      # thicken (sqrt) is not modelled; `modify` faces are re-discretised by the library at run time
     if isinstance(mv, str) and mv == 'unsupported':
         return 'model answered `unsupported` for a case generated inside its scope (impl: %s)' % (str(iv)[:80],)
     if isinstance(iv, Err) or is_err(mv):
@@ -1033,7 +1040,7 @@ def tags(s, res):
             out.append('loop=reversed-member')
         out.append('weights=' + s.get('wclass', 'none'))
     if s.get('oracle_only'):
-        out.append('oracle-only')
+        out.append('different-bases')       # inputs whose bases differ (make_splines_identical does real work)
     if f in ('edge_curves', 'coons') and len(s['curves']) in (2, 4):
         bs = [c['bases'][0] for c in s['curves']]
         def rv(b):
